@@ -5,7 +5,7 @@ import re
 # simplest first
 SIGMA_DOC = ["k", " ", "\n", ",", "=", "{", "}", '"', "#", "1", "s", "\\", "@",
              "@article{", "@comment{", "@string{", "@preamble{"]
-SIGMA_DOC_EXT = SIGMA_DOC + ["\r\n", "\xa0", "é", "\x0c", " ", "\u0130", "\ufb01"]  # (the last two: str.lower() / upper() change their length)
+SIGMA_DOC_EXT = SIGMA_DOC + ["\r\n", "\xa0", "é", "\x0c", " ", "\u0130", "\ufb01", "\ufeff", "e\u0301"]  # (U+0130, the ligature: lower() / upper() change their length; a byte-order mark; a decomposed letter)
 # characters that mean something to a template, a %-format or a regular expression, next to the structural core
 SIGMA_DOC_MINI = ["k", "\n", ",", "=", "{", "}", '"', "@article{", "@comment{", "%s", "%", "{0}", "{n}", "\\1", ".*", "(", "[", "$", "|", "+?"]
 # 12-token core for the deepest runs
